@@ -1,6 +1,6 @@
 #!/bin/sh
 # usage: seed_checks.sh <patch.diff> [Cxx ...]   applies the patch to /repo, runs the checks (in parallel), always undoes it
-patch=$1; shift
+patch=$(readlink -f "$1"); shift
 props="$@"; [ -n "$props" ] || props=$(/venv/bin/python -c "import json;print(' '.join(c['property_id'] for c in json.load(open('/verif/MANIFEST.json'))['checks']))")
 cd /verif
 git -C /repo diff --quiet || { echo "/repo is dirty"; exit 2; }
